@@ -53,7 +53,9 @@ Run(ev) ==
       okOutcome == ev.out = "ok" IN
   /\ Chk(ev.fds_after = ev.fds_before, "a descriptor was left open (or closed twice) by the call")
   /\ Chk(ev.zombies = 0 /\ ev.alive = 0, "the child was not reaped (zombie or still running after return)")
-  /\ IF TimedOut(ev)
+  /\ IF ev.api = "abandon"        \* the object was destroyed with the child possibly alive: P_DtorTry / P_DtorWait
+       THEN Chk(okOutcome, "destroying a Subprocess object threw")
+     ELSE IF TimedOut(ev)
        THEN Chk(IF ev.check = 1 THEN ev.out # "ok" ELSE ev.out = "ok" /\ ev.status # 0, "a timeout must end the child")
        ELSE IF ~exact /\ ~okOutcome THEN Chk(ev.out = "runtime_error", "only a failed write to a vanished reader may throw here")
        ELSE IF ev.check = 1 /\ ev.api = "run_process" /\ ExpStatus(ev) # 0
